@@ -274,6 +274,30 @@ fn step(target: &str, sni: &str, s: &Value, seed: &mut Rng) -> Value {
             drop(conns);
             json!({"do": what, "connected": true, "opened": ok, "short_conns": short_ok, "meanwhile": mid})
         }
+        "linger" => {
+            // clients that complete a handshake (without ALPN, with a foreign protocol, with acme-tls/1) and then simply stay: no data,
+            // no close_notify, no close, while a validating client comes by
+            let hold = s.get("hold_ms").and_then(|v| v.as_u64()).unwrap_or(3000);
+            let mut kept = vec![];
+            let mut done = 0;
+            let mut c = Some(conn);
+            for offer in [vec![], vec!["acme-tls/1".to_string()], vec![], vec!["acme-tls/1".to_string()]] {
+                let cc = match c.take() { Some(x) => Ok(x), None => connect(target) };
+                if let Ok(cc) = cc {
+                    if let Some(st) = tls_connect_keep(cc, sni, &offer) {
+                        done += 1;
+                        kept.push(st);
+                    }
+                }
+            }
+            let mid = connect(target).map(|c| tls_probe(c, sni, &["acme-tls/1".to_string()])).unwrap_or(json!({"handshake_ok": false, "err": "connect"}));
+            std::thread::sleep(Duration::from_millis(hold));
+            // half of them leave without a word (the descriptor is closed, no close_notify), the others are still there at the next step
+            let rest = kept.split_off(kept.len() / 2);
+            drop(kept);
+            std::mem::forget(rest);
+            json!({"do": what, "connected": true, "handshakes_kept": done, "meanwhile": mid})
+        }
         _ => json!({"do": what, "connected": true, "err": "unknown behaviour"}),
     }
 }
